@@ -1,3 +1,119 @@
 // hook module for ffi/dnp3-ffi (C20): generated enum-conversion harnesses
 use super::*;
 include!(concat!(env!("VERIF_GEN_DIR"), "/ffi_handler_gen.rs"));
+
+// ---- native -> binding direction (what the master hands to a ReadHandler written in C/.NET/Java) ----
+
+fn any_native_time() -> (u8, u64, Option<Time>) {
+    let k: u8 = kani::any();
+    kani::assume(k < 3);
+    let v: u64 = kani::any();
+    kani::assume(v <= 0xFFFF_FFFF_FFFF);
+    let t = match k {
+        0 => Some(Time::Synchronized(Timestamp::new(v))),
+        1 => Some(Time::Unsynchronized(Timestamp::new(v))),
+        _ => None,
+    };
+    (k, v, t)
+}
+
+fn check_ffi_time(k: u8, v: u64, got: &ffi::Timestamp) {
+    match (k, got.quality()) {
+        (0, ffi::TimeQuality::SynchronizedTime) => assert!(got.value() == v),
+        (1, ffi::TimeQuality::UnsynchronizedTime) => assert!(got.value() == v),
+        (2, ffi::TimeQuality::InvalidTime) => assert!(got.value() == 0),
+        _ => panic!("time quality not preserved towards the binding"),
+    }
+}
+
+// @harness c20_native_time_to_ffi
+// @props C20
+// @tier quick
+// @crate dnp3-ffi
+// @timeout 300
+// @units impl From<Option<Time>> for ffi::Timestamp, impl From<Flags> for ffi::Flags
+// @bounds every 48-bit timestamp with each of the three qualities (synchronized, unsynchronized, no time), every flag octet: value and quality both arrive unchanged (no time -> value 0 / InvalidTime)
+#[kani::proof]
+#[kani::unwind(2)]
+fn c20_native_time_to_ffi() {
+    let (k, v, t) = any_native_time();
+    let x: ffi::Timestamp = t.into();
+    check_ffi_time(k, v, &x);
+    let f: u8 = kani::any();
+    let y: ffi::Flags = Flags::new(f).into();
+    assert!(y.value == f);
+    kani::cover!(k == 1 && v != 0);
+}
+
+// @harness c20_native_measurements_to_ffi
+// @props C20
+// @tier quick
+// @crate dnp3-ffi
+// @timeout 300
+// @units ffi::BinaryInput::new, ffi::DoubleBitBinaryInput::new, ffi::Counter::new, ffi::AnalogInput::new (native measurement -> binding struct)
+// @bounds every index, value (bool / 4 double-bit states / u32 / f64 bit pattern), flag octet, 48-bit time and quality: field-for-field
+#[kani::proof]
+#[kani::unwind(2)]
+fn c20_native_measurements_to_ffi() {
+    let (k, v, t) = any_native_time();
+    let idx: u16 = kani::any();
+    let f: u8 = kani::any();
+    let which: u8 = kani::any();
+    kani::assume(which < 4);
+    match which {
+        0 => {
+            let b: bool = kani::any();
+            let x = ffi::BinaryInput::new(idx, BinaryInput { value: b, flags: Flags::new(f), time: t });
+            assert!(x.index == idx && x.value == b && x.flags.value == f);
+            check_ffi_time(k, v, &x.time);
+        }
+        1 => {
+            let d: u8 = kani::any();
+            kani::assume(d < 4);
+            let (n, e) = match d {
+                0 => (DoubleBit::Intermediate, ffi::DoubleBit::Intermediate),
+                1 => (DoubleBit::DeterminedOff, ffi::DoubleBit::DeterminedOff),
+                2 => (DoubleBit::DeterminedOn, ffi::DoubleBit::DeterminedOn),
+                _ => (DoubleBit::Indeterminate, ffi::DoubleBit::Indeterminate),
+            };
+            let x = ffi::DoubleBitBinaryInput::new(idx, DoubleBitBinaryInput { value: n, flags: Flags::new(f), time: t });
+            assert!(x.index == idx && x.value() == e && x.flags.value == f);
+            check_ffi_time(k, v, &x.time);
+        }
+        2 => {
+            let c: u32 = kani::any();
+            let x = ffi::Counter::new(idx, Counter { value: c, flags: Flags::new(f), time: t });
+            assert!(x.index == idx && x.value == c && x.flags.value == f);
+            check_ffi_time(k, v, &x.time);
+        }
+        _ => {
+            let a: f64 = kani::any();
+            let x = ffi::AnalogInput::new(idx, AnalogInput { value: a, flags: Flags::new(f), time: t });
+            assert!(x.index == idx && x.value.to_bits() == a.to_bits() && x.flags.value == f);
+            check_ffi_time(k, v, &x.time);
+        }
+    }
+    kani::cover!(which == 3 && k == 1);
+}
+
+// @harness c20_native_iin_to_ffi
+// @props C20
+// @tier quick
+// @crate dnp3-ffi
+// @timeout 300
+// @units impl From<Iin1> for ffi::Iin1, impl From<Iin2> for ffi::Iin2
+// @bounds all 65536 IIN values: each of the 16 named bits of the binding struct equals the bit of the octet IEEE 1815 assigns to it
+#[kani::proof]
+#[kani::unwind(2)]
+fn c20_native_iin_to_ffi() {
+    let a: u8 = kani::any();
+    let b: u8 = kani::any();
+    let x: ffi::Iin1 = Iin1::new(a).into();
+    let y: ffi::Iin2 = Iin2::new(b).into();
+    let bit = |v: u8, i: u8| v & (1 << i) != 0;
+    assert!(x.broadcast == bit(a, 0) && x.class_1_events == bit(a, 1) && x.class_2_events == bit(a, 2) && x.class_3_events == bit(a, 3));
+    assert!(x.need_time == bit(a, 4) && x.local_control == bit(a, 5) && x.device_trouble == bit(a, 6) && x.device_restart == bit(a, 7));
+    assert!(y.no_func_code_support == bit(b, 0) && y.object_unknown == bit(b, 1) && y.parameter_error == bit(b, 2) && y.event_buffer_overflow == bit(b, 3));
+    assert!(y.already_executing == bit(b, 4) && y.config_corrupt == bit(b, 5) && y.reserved_2 == bit(b, 6) && y.reserved_1 == bit(b, 7));
+    kani::cover!(a == 0x80 && b == 0x08);
+}
